@@ -347,6 +347,26 @@ def rule_D3_fwd_tuple(text):
     return rx.sub(rep, text), n
 
 
+def rule_D6(text):
+    """for I in A..=B { BODY }  ->  let mut I = A; while I <= B { BODY; I += 1; }
+    (valid when BODY has no `continue` and B + 1 does not overflow: the latter becomes an overflow obligation)"""
+    rx = re.compile(r'for (\w+) in ([\w\.]+)\.\.=([\w\.]+) \{')
+    n = 0
+    while True:
+        m = rx.search(text)
+        if not m:
+            break
+        ob = m.end() - 1
+        cb = match_close(text, ob)
+        inner = text[ob + 1:cb]
+        if re.search(r'\bcontinue\b', inner):
+            raise ExtractError('rule D6: loop body contains continue')
+        n += 1
+        new = 'let mut %s = %s;\nwhile %s <= %s {' % (m.group(1), m.group(2), m.group(1), m.group(3)) + inner + ' %s += 1;\n}' % m.group(1)
+        text = text[:m.start()] + new + text[cb + 1:]
+    return text, n
+
+
 def rule_D2(text):
     """for X in E.iter().flatten() { B } -> for k in 0..E.len() { if let Some(X) = &E[k] { B } }"""
     rx = re.compile(r'for (\w+) in ([\w\.]+)\.iter\(\)\.flatten\(\) \{')
